@@ -526,14 +526,19 @@ func main() {
 					dump := string(buf)
 					blocked := 0
 					for _, gr := range strings.Split(dump, "\n\n") {
-						if (strings.Contains(gr, "sync.(*Mutex).Lock") || strings.Contains(gr, "sync.(*RWMutex)")) && strings.Contains(gr, "sentinel-golang/") {
+						// parked on a library mutex for at least a minute (the runtime prints "N minutes" in the header)
+						hdr := gr
+						if k := strings.Index(gr, "\n"); k >= 0 {
+							hdr = gr[:k]
+						}
+						if (strings.Contains(gr, "sync.(*Mutex).Lock") || strings.Contains(gr, "sync.(*RWMutex)")) && strings.Contains(gr, "sentinel-golang/") && strings.Contains(hdr, "minutes]") {
 							blocked++
 						}
 					}
 					if blocked >= 2 {
-						report("C15/deadlock", fmt.Sprintf("a goroutine of the workload completed no operation for 60 s and %d goroutines are parked on mutexes inside the library", blocked))
+						report("C15/deadlock", fmt.Sprintf("a goroutine of the workload completed no operation for 60 s and %d goroutines have been parked on mutexes inside the library for more than a minute", blocked))
 					} else {
-						run.Inconclusive("no progress for 60 s but no mutex cycle visible in the goroutine dump")
+						run.Inconclusive("a goroutine made no progress for 60 s but fewer than two goroutines have been parked on library mutexes for a minute")
 					}
 					os.Stderr.WriteString(dump)
 					vioMu.Lock()
